@@ -9,11 +9,11 @@ CHECKS = {
   note="Trusts the harness' evaluator and its minimal-parentheses printer (both written from the statement's precedence table). Operations the statement leaves undefined are executed but not judged; error texts are not compared.",
   technique="differential runtime monitor against an independent typed expression evaluator, 4 source layouts per tree"),
  "C02": dict(category="exploration",
-  text="Runtime monitor with in-evaluation probes: every condition of every generated @if/@elseif/@else, ternary, @breakIf and @continueIf is wrapped in a registered tracer function, so each render of the real evaluator yields an event log of which conditions were evaluated, in which order, with which value. Output and log are compared with an independent interpreter. Exhaustive over shapes (0..3 @elseif, with/without @else) x truthiness vectors x the whole truthiness table at each position x failing conditions at each position x nestings to depth 3; random nestings beyond.",
+  text="Runtime monitor with in-evaluation probes: every condition of every generated @if/@elseif/@else, ternary, @breakIf and @continueIf is wrapped in a registered tracer function, so each render of the real evaluator yields an event log of which conditions were evaluated, in which order, with which value. Output and log are compared with an independent interpreter. Exhaustive over shapes (0..3 @elseif, with/without @else) x truthiness vectors x the whole truthiness table at each position x failing conditions at each position x nestings to depth 3; random nestings beyond. Also: @else bodies glued to the keyword, and the construct inside slot bodies, insert blocks, component files and layouts of loaded template trees (with a failing condition at each position).",
   note="Trusts the harness' interpreter and the tracer registration (public RegisterXFunc API). nil/object conditions cannot carry a tracer and are judged by output only.",
   technique="tracer-probe event log + reference interpreter over exhaustive branch shapes"),
  "C03": dict(category="exploration",
-  text="Runtime monitor with in-evaluation probes: loop.index/iter/first/last and the loop variable are traced per pass by registered tracer functions and compared, together with the output, with an independent interpreter. Exhaustive over array lengths 0..6 x element kinds, every position of every control directive in a 4-item body (bare and under @if/@elseif/@else to depth 2), 2/3-level nests of @each/@for with a directive at each level, @else bodies acting on the outer loop, @for start/bound/comparison/step combinations, absent clauses, non-array headers; random loop programs beyond.",
+  text="Runtime monitor with in-evaluation probes: loop.index/iter/first/last and the loop variable are traced per pass by registered tracer functions and compared, together with the output, with an independent interpreter. Exhaustive over array lengths 0..6 x element kinds, every position of every control directive in a 4-item body (bare and under @if/@elseif/@else to depth 2), 2/3-level nests of @each/@for with a directive at each level, @else bodies acting on the outer loop, @for start/bound/comparison/step combinations, absent clauses, non-array headers; random loop programs beyond. Also: text glued to @break/@continue.",
   note="Trusts the harness' interpreter (one scope per loop, control flow as worded in the statement). Loops needing more than 14 passes are not generated.",
   technique="tracer-probe event log + reference interpreter over exhaustive loop/control-flow shapes"),
  "C04": dict(category="exploration",
@@ -21,7 +21,7 @@ CHECKS = {
   note="Trusts the harness' scope-chain interpreter. A loop is one block for all its passes. Error texts are not compared.",
   technique="differential runtime monitor against a scope-chain interpreter, exhaustive short programs"),
  "C05": dict(category="exploration",
-  text="Runtime monitor over the real render: an independent scanner classifies every string (plain text / escapes only / contains syntax) and gives the expected bytes; plain, escape, comment and splice cases are rendered and compared byte for byte. Exhaustive over all sequences of up to 4 (quick) / 5 (thorough) atoms of an adversarial text alphabet (@, backslash, braces, dashes, quotes, CRLF, UTF-8, directive names and their proper prefixes), comment bodies, and text spliced on both sides of 8 constructs; random beyond.",
+  text="Runtime monitor over the real render: an independent scanner classifies every string (plain text / escapes only / contains syntax) and gives the expected bytes; plain, escape, comment and splice cases are rendered and compared byte for byte. Exhaustive over all sequences of up to 4 (quick) / 5 (thorough) atoms of an adversarial text alphabet (@, backslash, braces, dashes, quotes, CRLF, UTF-8, directive names and their proper prefixes), comment bodies, and text spliced on both sides of 8 constructs; random beyond. Also: raw control and non-UTF-8 bytes (NUL, 0x01, VT, FF, ESC, DEL, 0x80, 0xa0, 0xc3, 0xff) between every pair of atoms in text, comments and around constructs; every text through template files (page, layout, insert block, component file, slot body, between slots, between a component and a slot) rendered with String and written with Response.",
   note="Trusts the harness' text scanner (the escape and comment rules as stated). Strings containing unescaped syntax are left to C08/C19.",
   technique="byte-for-byte passthrough monitor against an independent text scanner, exhaustive atom sequences"),
  "C06": dict(category="exploration",
@@ -33,11 +33,11 @@ CHECKS = {
   note="Trusts the harness' tree interpreter, the tracer probes and the reflective AST walker of the hook. Slot placeholders sit at the top level of component files; slot bodies are non-empty.",
   technique="differential runtime monitor on generated component trees + tracer-probe log (AST-sharing hook as evidence)"),
  "C08": dict(category="exploration",
-  text="Crash/hang/contract monitors around the real lexer and parser: logical progress of the lexer (position strictly grows, at most len+2 tokens - no clock), CPU/heap watchdog in an isolated worker with the case in flight journalled (a hang is confirmed alone with a doubled budget), panic monitor, and the contract 'program without errors, or >= 1 error and every error has a line'. Inputs: all sequences of up to 2 (quick) / 3 (thorough) lexemes (+1 over the directive core) glued and spaced, incl. NUL/0xff bytes; every prefix and every single-token deletion/duplication/swap of generated valid templates - a prefix cutting a generated block, string, object literal, comment or directive argument list (spans recorded by the generator) must be rejected; a table of 77 truncations x 7 prefixes; random soups; the same through NewTemplate on a one-file directory.",
+  text="Crash/hang/contract monitors around the real lexer and parser: logical progress of the lexer (position strictly grows, at most len+2 tokens - no clock), CPU/heap watchdog in an isolated worker with the case in flight journalled (a hang is confirmed alone with a doubled budget), panic monitor, and the contract 'program without errors, or >= 1 error and every error has a line'. Inputs: all sequences of up to 2 (quick) / 3 (thorough) lexemes (+1 over the directive core) glued and spaced, incl. NUL/0xff bytes; every prefix and every single-token deletion/duplication/swap of generated valid templates - a prefix cutting a generated block, string, object literal, comment or directive argument list (spans recorded by the generator) must be rejected; a table of 77 truncations x 7 prefixes; random soups; the same through NewTemplate on a one-file directory. Also: every closed construct (empty and non-empty bodies) inside every unclosed block opener, one and two levels deep, and every truncation followed by a hostile byte and more text.",
   note="Termination is decided as bounded progress (6 s of CPU per input whose median is microseconds; 2 GiB heap). Inputs are at most a few hundred bytes; recursion depth on huge inputs is not claimed.",
   technique="isolated-worker watchdog (CPU/heap, journalled case) + lexer progress monitor + parse contract oracle"),
  "C09": dict(category="exploration",
-  text="Crash monitor and contract oracle on evaluation: programs from an untyped generator (any expression kind in any position, @for with every subset of clauses absent) and mostly-typed programs rendered with a hostile data map (every kind, 64-bit extremes, nil pointers/slices/maps, structs); every built-in x 40 receivers x all 0..2-argument tuples (+ sampled triples) from 24 boundary values; data maps with nil pointers and unsupported kinds planted at depth 0..3 (also through object.EnvFromMap directly). Every outcome must be output or a Textwire error value carrying a line; panics are caught with their stack, fatal errors and hangs by the worker supervisor.",
+  text="Crash monitor and contract oracle on evaluation: programs from an untyped generator (any expression kind in any position, @for with every subset of clauses absent) and mostly-typed programs rendered with a hostile data map (every kind, 64-bit extremes, nil pointers/slices/maps, structs); every built-in x 40 receivers x all 0..2-argument tuples (+ sampled triples) from 24 boundary values; data maps with nil pointers and unsupported kinds planted at depth 0..3 (also through object.EnvFromMap directly). Every outcome must be output or a Textwire error value carrying a line; panics are caught with their stack, fatal errors and hangs by the worker supervisor. Also: NaN, infinities, the smallest and largest float under every operator and statement position; 12 failing expressions in 50 places of a loaded template tree (incl. component arguments the component never reads, two-argument inserts, slot bodies, layouts; places that are not reached must not fail).",
   note="Counts are small, negative or absurdly large; the gray zone of merely huge counts is not generated. Errors from building the environment carry no line by design.",
   technique="panic/budget monitors + error-value contract over untyped programs and a built-in x boundary-value matrix"),
  "C10": dict(category="exploration",
@@ -45,43 +45,43 @@ CHECKS = {
   note="Trusts html.UnescapeString as the inverse used by the oracle. Literals that cannot be written (trailing backslash, backslash-quote) are skipped.",
   technique="escaping oracle on delimited output segments, exhaustive literal contents x usage contexts"),
  "C11": dict(category="exploration",
-  text="Reference-function monitor: one independent reference per built-in (39) gives, for every call, the set of acceptable results (value, permutation, member, and/or error where the contract is silent). Receiver and arguments come from the data map and every render prints receiver before, result, receiver after and the arguments, so purity is observed on the same execution; utf8.ValidString on every output; call sequences (two calls on one receiver, calls chained on slice/reverse results) expose shared storage; a custom function registered under every built-in name must never run. Exhaustive over receivers x 0..2-argument tuples from a 26-value pool, the (len,start,end) cube for slice and (len,n) squares for at/repeat/truncate/decimal; random beyond.",
+  text="Reference-function monitor: one independent reference per built-in (39) gives, for every call, the set of acceptable results (value, permutation, member, and/or error where the contract is silent). Receiver and arguments come from the data map and every render prints receiver before, result, receiver after and the arguments, so purity is observed on the same execution; utf8.ValidString on every output; call sequences (two calls on one receiver, calls chained on slice/reverse results) expose shared storage; a custom function registered under every built-in name must never run. Exhaustive over receivers x 0..2-argument tuples from a 26-value pool, the (len,start,end) cube for slice and (len,n) squares for at/repeat/truncate/decimal; random beyond. Also: one call site evaluated in a loop over receivers of changing kinds.",
   note="Where the statement names no behaviour (split, raw, trim*, upper, lower, join, repeat, rand) the reference is the obvious reading of the name, consistent with the pinned suite. Extra arguments may be ignored or rejected.",
   technique="per-built-in reference functions + before/after purity observation + UTF-8 validity + shadow-function sentinel"),
  "C12": dict(category="exploration",
-  text="Reference-model monitor on data conversion: Go values generated by type-directed recursion (all integer widths with extremes, float32/64, strings with markup/UTF-8/template syntax, nil, pointers 1-3 deep and nil at every level, typed/untyped slices, string-keyed maps incl. keys differing only in case, static structs with unexported and interface fields, reflect.StructOf types, unsupported kinds planted anywhere) come with their expected view; up to 24 access paths per value (dot, index, lower-cased first letter, out-of-range, missing and unexported names) are rendered and compared; the value is built twice from one seed and the copy given to the render must stay reflect.DeepEqual to the other after printing, dumping, iterating and calling reverse/append on it.",
+  text="Reference-model monitor on data conversion: Go values generated by type-directed recursion (all integer widths with extremes, float32/64, strings with markup/UTF-8/template syntax, nil, pointers 1-3 deep and nil at every level, typed/untyped slices, string-keyed maps incl. keys differing only in case, static structs with unexported and interface fields, reflect.StructOf types, unsupported kinds planted anywhere) come with their expected view; up to 24 access paths per value (dot, index, lower-cased first letter, out-of-range, missing and unexported names) are rendered and compared; the value is built twice from one seed and the copy given to the render must stay reflect.DeepEqual to the other after printing, dumping, iterating and calling reverse/append on it. Also: defined map, key and slice types; unsupported values under top-level names no template can spell, with templates that do not touch the data (also the empty template, also through EvaluateFile).",
   note="A nil map is seen as an empty object, a nil slice as an empty array. Named scalar types and non-string map keys are not generated.",
   technique="type-directed value generator with expected view + access-path oracle + deep-equality immutability monitor"),
  "C13": dict(category="exploration",
-  text="Constructed-oracle monitor: one faulty construct of every kind (27 single-line and multi-line variants: undefined identifier, mistyped operand, unknown function/property, division/modulo by zero, non-array @each, re-typing, illegal character, unexpected token also after newlines inside a construct, bad literal, undefined insert, unknown component) is injected on a line known by construction after every kind of multi-line token (20 prelude kinds), under 5 block wrappers; exhaustive for last-token x fault x wrapper and for all triples of preludes, random longer preludes; template trees put the fault in the page, an insert block, a slot body, a layout or a component and compare line and absolute path read from the returned error.",
+  text="Constructed-oracle monitor: one faulty construct of every kind (27 single-line and multi-line variants: undefined identifier, mistyped operand, unknown function/property, division/modulo by zero, non-array @each, re-typing, illegal character, unexpected token also after newlines inside a construct, bad literal, undefined insert, unknown component) is injected on a line known by construction after every kind of multi-line token (20 prelude kinds), under 5 block wrappers; exhaustive for last-token x fault x wrapper and for all triples of preludes, random longer preludes; template trees put the fault in the page, an insert block, a slot body, a layout or a component and compare line and absolute path read from the returned error. Also: faults whose offending token is a string literal spanning lines; in trees, other pages (one failing on its own line) are rendered before the faulty one.",
   note="The expected line counts newline bytes of the generated source; for multi-line constructs the offending token's line is used. Run-time faults inside layout/component files are not judged for their path, as the statement restricts.",
   technique="error line/path oracle by construction over multi-line preludes, strings and template trees"),
  "C14": dict(category="exploration",
-  text="Repetition monitor: every case is executed 12 (quick) / 40 (thorough) times in one process - trees reloaded from disk after a state reset each time - and as 3 / 8 copies that land in different worker processes and exchange their observation through a shared scratch directory; all observations (output, or error message + line + path) must be byte-identical. Cases are biased to map iteration: objects with up to 12 keys (incl. case-variant keys) printed/dumped/nested, literals and component arguments with 2..4 failing entries, 2..4 undefined/duplicate inserts, slots passed twice, 2..4 faulty files at once (syntax and link faults), plus generated programs.",
+  text="Repetition monitor: every case is executed 12 (quick) / 40 (thorough) times in one process - trees reloaded from disk after a state reset each time - and as 3 / 8 copies that land in different worker processes and exchange their observation through a shared scratch directory; all observations (output, or error message + line + path) must be byte-identical. Cases are biased to map iteration: objects with up to 12 keys (incl. case-variant keys) printed/dumped/nested, literals and component arguments with 2..4 failing entries, 2..4 undefined/duplicate inserts, slots passed twice, 2..4 faulty files at once (syntax and link faults), plus generated programs. Also: key sets that differ only in case for entries failing together.",
   note="shuffle()/rand() are excluded. A map-ordered choice among k >= 2 candidates survives all repetitions with probability <= 2^-35.",
   technique="in-process and cross-process repetition monitor on map-iteration-heavy cases"),
  "C15": dict(category="exploration",
-  text="Go race detector plus offline history check: the harness is built with -race; rounds of 2/8/32 (128 in thorough) goroutines x GOMAXPROCS 1/2/16 issue 200 seeded operations each (String ok/failing/missing/shuffle, Response ok/failing/missing, EvaluateString ok/failing, EvaluateFile) on one loaded tree with goroutine-specific data while a custom function called from inside the templates yields or sleeps. The race log of each worker is parsed and every report with a repository frame is a violation (de-duplicated by the pair of innermost repository frames); every recorded result must equal the stand-alone result of the same call (stateless sequential specification, so linearizability reduces to per-operation equality). Evidence counts operations that overlapped an operation of another kind.",
+  text="Go race detector plus offline history check: the harness is built with -race; rounds of 2/8/32 (128 in thorough) goroutines x GOMAXPROCS 1/2/16 issue 200 seeded operations each (String ok/failing/missing/shuffle, Response ok/failing/missing, EvaluateString ok/failing, EvaluateFile, loops failing in a later pass after producing output, data-less renders that assign names at top level next to one that reads the name and must fail) on one loaded tree with goroutine-specific data while a custom function called from inside the templates yields or sleeps. The race log of each worker is parsed and every report with a repository frame is a violation (de-duplicated by the pair of innermost repository frames); every recorded result must equal the stand-alone result of the same call (stateless sequential specification, so linearizability reduces to per-operation equality). Evidence counts operations that overlapped an operation of another kind.",
   note="Only interleavings the scheduler produced; the detector sees races between accesses that executed. porcupine was not used: the specification is stateless (DESIGN.md section 5).",
   technique="Go race detector (log parsed per process) + recorded concurrent history checked against stand-alone baselines"),
  "C16": dict(category="exploration",
-  text="History monitor with invariant hooks: all sequences up to length 2 (quick) / 3 (thorough), sampled ones one step longer and random histories of length 30, over 23 concrete operations (String on pages reading struct/map/lower-case-map data, failing pages, loops failing in a later pass, data-less renders that assign at top level and renders that read those names, missing and layout names, array built-ins; Response ok/failing/missing; EvaluateString; EvaluateFile) on a fixed tree under 18 configurations (3 directory/extension settings x debug x custom error page none/valid/failing). Each step's observation must equal the same operation issued first on a fresh load; after every step the verif hooks VerifFingerprint (structural hash of all loaded ASTs) and VerifState (configuration) must be unchanged.",
-  note="Baseline = result as first call after VerifResetConfig + NewTemplate in the same process. Trusts the reflective fingerprint walker.",
+  text="History monitor with invariant hooks: all sequences up to length 2 (quick) / 3 (thorough), sampled ones one step longer and random histories of length 30, over 30 concrete operations (one page with prefix-operator call arguments under two data sets, two struct types printing the same type name, a long-lived pointer first holding an unsupported value and then repaired; String on pages reading struct/map/lower-case-map data, failing pages, loops failing in a later pass, data-less renders that assign at top level and renders that read those names, missing and layout names, array built-ins; Response ok/failing/missing; EvaluateString; EvaluateFile) on a fixed tree under 18 configurations (3 directory/extension settings x debug x custom error page none/valid/failing). Each step's observation must equal the same operation issued first on a fresh load; after every step the verif hooks VerifFingerprint (structural hash of all loaded ASTs) and VerifState (configuration) must be unchanged.",
+  note="Baseline = result of the operation as the first call of a fresh child process that loaded the same tree with the same configuration (shared between the workers of a run, working directory normalised). Trusts the reflective fingerprint walker.",
   technique="exhaustive operation histories vs fresh-state baselines + AST fingerprint / configuration invariant hooks"),
  "C17": dict(category="exploration",
-  text="Recording-writer monitor: all combinations of debug on/off x {no, valid, missing, failing} custom error page x pages that succeed or fail at statement i of n at top level, in loop pass i, in an insert block, in the layout, in a component file, in a slot body, in a component argument, or name an unknown template or a layout, x 4 fault kinds; configurations follow each other in seeded order inside one process. A recording http.ResponseWriter captures the body; pages, identifiers, file and directory names carry sentinels so that 'part of the failed page', 'the message' and 'a path' are substring tests; the expected page follows the table of the statement.",
+  text="Recording-writer monitor: all combinations of debug on/off x {no, valid, missing, failing} custom error page x pages that succeed or fail at statement i of n at top level, in loop pass i, in an insert block, in the layout, in a component file, in a slot body, in a component argument, in the expression of a two-argument insert, or name an unknown template or a layout, x 10 fault kinds (two with a percent sign in the message; the directory name holds one too); configurations follow each other in seeded order inside one process, and sequences of 2-4 configurations that differ in the debug flag only follow each other without a reset (the last one governs). A recording http.ResponseWriter captures the body; pages, identifiers, file and directory names carry sentinels so that 'part of the failed page', 'the message' and 'a path' are substring tests; the expected page follows the table of the statement.",
   note="Configuration is set through NewTemplate after the verif reset hook. With debug on, the line is checked as ':<line>' after the path.",
   technique="recording ResponseWriter + sentinel substring oracles over the full configuration x failure-position matrix"),
  "C18": dict(category="fault_enumeration",
-  text="Fault enumeration on the real loader plus a naming monitor. Faults: for every file of valid trees (page, layout, component, nested page) x {deleted, dangling symlink, symlink loop, directory in its place, empty, 10 garbage contents, truncated at every byte offset} the tree is first loaded valid, the fault applied in place, and the tree reloaded in the same process: NewTemplate must return (nil, error) naming the file (or the layout/component name when absent), never panic or hang. Naming: every subset of 5 sub-directories x 4 extensions x 8 directory spellings with decoy files whose names only contain the extension; VerifNames() must equal the expected set, every name must render its own content, layouts must not render, unknown names must be reported. EvaluateFile(path) is compared with EvaluateString(content) across rewrites of one path.",
+  text="Fault enumeration on the real loader plus a naming monitor. Faults: for every file of valid trees (page, layout, component, nested page) x {deleted, dangling symlink, symlink loop, directory in its place, empty, 10 garbage contents, truncated at every byte offset} the tree is first loaded valid, the fault applied in place, and the tree reloaded in the same process: NewTemplate must return (nil, error) naming the file (or the layout/component name when absent), never panic or hang. Naming: every subset of 5 sub-directories x 4 extensions x 8 directory spellings with decoy files whose names only contain the extension; VerifNames() must equal the expected set, every name must render its own content, layouts must not render, unknown names (incl. a registered name with a leading slash, './', a trailing slash, the extension, blanks, other case) must be reported. One fault tree has a component that only the layout refers to. EvaluateFile(path) is compared with EvaluateString(content) across rewrites of one path.",
   note="Unreadable files are produced with symlinks (the sandbox runs as root). A truncation must fail only when it cuts a block, string, object literal, comment or directive argument list. Relative template directories only.",
   technique="in-place file fault enumeration with valid-load-first protocol + exact name-set oracle via hook"),
  "C19": dict(category="exploration",
-  text="Runtime monitor over the real lexer: every token of every generated input is compared with an independent (line, column)<->offset table (order, no overlap, exact start/end, covered bytes = token text, gaps, EOF position, Position.Contains for every cursor, lexer counters via hook). Exhaustive over all sequences of up to 4 (quick) / 5 (thorough) atoms of the text alphabet and 3 / 4 atoms of the lexeme alphabet, random beyond.",
+  text="Runtime monitor over the real lexer: every token of every generated input is compared with an independent (line, column)<->offset table (order, no overlap, exact start/end, covered bytes = token text, gaps, EOF position, Position.Contains for every cursor, lexer counters via hook). Exhaustive over all sequences of up to 4 (quick) / 5 (thorough) atoms of the text alphabet and 3 / 4 atoms of the lexeme alphabet, all pairs of lexemes behind 11 leading byte sequences (byte order marks, NUL, control bytes, zero-width and non-breaking spaces, line separators), random beyond.",
   note="Trusts the harness' own position table and text model (removeEscapes, gap grammar). The token stream is taken to end at the first ILLEGAL token.",
   technique="runtime monitor (independent position table + cursor oracle) over exhaustive/random lexer inputs"),
  "C20": dict(category="exploration",
-  text="Offline trace checker against a sequential registry model: all histories up to length 3 over {Register, Call on literal, Call on variable, CallInsideTemplate} x 5 receiver types x names {f, g, a built-in name}, plus LoadTemplates, each replayed from the reset hook; every registered function bakes a unique id into its result so a call reveals which function is bound; unregistered calls must fail naming function and receiver type. Conversion: a recording function captures receiver and up to 3 generated arguments (64-bit extremes, floats, strings, booleans, nil, nested arrays/objects; literals and data) and they are compared with the plain Go values; a function result is rendered next to the same Go value passed as data, printed and probed through the same access paths.",
+  text="Offline trace checker against a sequential registry model: all histories up to length 3 over {Register, Call on literal, Call on variable, CallInsideTemplate} x 5 receiver types x names {f, g, a built-in name}, plus LoadTemplates, each replayed from the reset hook; every registered function bakes a unique id into its result so a call reveals which function is bound; unregistered calls must fail naming function and receiver type. Conversion: a recording function captures receiver and up to 3 generated arguments (64-bit extremes, floats, strings, booleans, nil, nested arrays/objects; literals and data) and they are compared with the plain Go values; a function result is rendered next to the same Go value passed as data, printed and probed through the same access paths. Also: a callee that overwrites every map and slice it receives, called repeatedly with the same variables (each call must receive the original content; variables and caller data unchanged); functions returning nil/empty slices whose result is used as an array; registered functions called through EvaluateFile, Template.String and Response (page, insert block, component file, slot body).",
   note="String contents avoid HTML-special characters (C10's concern). An empty array may reach a function as nil or an empty slice.",
   technique="exhaustive registration/call histories vs registry model + recorded argument/result conversion round-trip"),
 }
